@@ -80,4 +80,20 @@ def partsList (file : FileId) : List Expr → List FExpr
   | e :: es => parts file e ++ partsList file es
 end
 
+mutual
+/-- user-written: no location in the expression — nor in the definitions it refers to — is
+synthetic (`is_synthetic`: produced by `synthetics.desugar`). -/
+def natural : Expr → Bool
+  | .num l | .boolc l | .enumv l _ | .cother l | .lparam l _ | .lparamArr l | .lphys l _
+  | .builtin l _ => !l.syn
+  | .cphys l _ dl => !l.syn && !dl.syn
+  | .cvirt l _ d | .lvirt l _ d => !l.syn && natural d
+  | .bin l _ a b => !l.syn && (natural a && natural b)
+  | .choice l c t f => !l.syn && (natural c && (natural t && natural f))
+  | .fn l _ args => !l.syn && naturalList args
+def naturalList : List Expr → Bool
+  | [] => true
+  | e :: es => natural e && naturalList es
+end
+
 end Emboss.Types
